@@ -157,7 +157,7 @@ def far_or_tiny(rng, bars, style):
     r = rng.random()
     if r < 0.10:
         unit = float(np.min(bars[:, 1] - bars[:, 0]))
-        return bars + float(rng.choice([1e5, 1e6, 1e7])) * unit, style + "+far"
+        return bars + float(rng.choice([1e5, 1e6, 1e7, 1e9, 3e9, 1e10])) * unit, style + "+far"
     if r < 0.16:
         return bars * float(rng.choice([1e-9, 1e-7])) / max(float(np.max(np.abs(bars))), 1e-300), style + "+tiny"
     if r < 0.26:
